@@ -193,6 +193,7 @@ type State struct {
 	events []string
 	cuts   map[string]bool // loop headers already cut on this path: key = frameid:blockindex
 	defers []deferred
+	keep   map[int]bool // ids of path-condition entries that define ghost atoms: never dropped by a `forget` cut
 }
 
 type deferred struct {
@@ -211,6 +212,12 @@ func (s *State) Clone() *State {
 	}
 	for k, v := range s.cuts {
 		n.cuts[k] = v
+	}
+	if s.keep != nil {
+		n.keep = map[int]bool{}
+		for k := range s.keep {
+			n.keep[k] = true
+		}
 	}
 	n.events = append([]string(nil), s.events...)
 	n.defers = append([]deferred(nil), s.defers...)
